@@ -152,6 +152,7 @@ class Fn:
         self.returns_self = False
         self.closure: list[str] = []
         self.msg_only: set[str] = set()
+        self.decomp: dict[str, tuple[str, str, str]] = {}
 
     # ---- helpers
     def fresh(self):
@@ -171,12 +172,27 @@ class Fn:
         pure = self.pure(n)
         if pure is not None:
             return k(pure)
-        term = self.impure(n)
+        return self.mkbind(self.impure(n), k)
+
+    def mkbind(self, term: str, k) -> str:
+        """bind term k, kept in right-nested normal form:  bind (bind m f) k  =  bind m (fun y => bind (f y) k)
+        and  bind (Ok v) k = k v  (monad laws; all binder names are fresh)"""
+        inner = ok_inner(term)
+        if inner is not None:
+            return k(inner)
+        if term in self.decomp:
+            m, y, f = self.decomp[term]
+            return self.mkbind_raw(m, y, self.mkbind(f, k))
         x = self.fresh()
         body = k(x)
         if body == f"(Ok {x})":
             return term
-        return f"(bind {term} (fun {x} => {body}))"
+        return self.mkbind_raw(term, x, body)
+
+    def mkbind_raw(self, m: str, x: str, body: str) -> str:
+        t = f"(bind {m} (fun {x} => {body}))"
+        self.decomp[t] = (m, x, body)
+        return t
 
     def evs(self, nodes, k):
         """evaluate left to right, pass list of atoms"""
@@ -368,7 +384,7 @@ class Fn:
             return simple("py_strv (m_repr M)", 1)
         if d == "dict":
             if nargs == 1 and isinstance(args[0], ast.GeneratorExp):
-                return f"(bind {self.comp(args[0], 'comp')} (fun x => py_dict x))"
+                return self.mkbind(self.comp(args[0], 'comp'), lambda x: f"(py_dict {x})")
             return simple("py_dict", 1)
         if d == "all":
             if nargs == 1 and isinstance(args[0], ast.GeneratorExp) and not kws:
@@ -410,7 +426,7 @@ class Fn:
             return simple("m_create_row M", 2)
         if d == "Row" and self.kind == "row":
             if nargs == 1 and isinstance(args[0], ast.Starred) and not kws:
-                return self.ev(args[0].value, lambda v: f"(bind (py_tuple {v}) (fun a => m_new M a (VDict [])))")
+                return self.ev(args[0].value, lambda v: self.mkbind(f"(py_tuple {v})", lambda a: f"(m_new M {a} (VDict []))"))
             self.fail(n, "Row(...) call shape")
         if d == "conv" and self.kind == "row":
             return simple("m_conv M", 1)
@@ -431,7 +447,7 @@ class Fn:
             if m in one and nargs == 1 and not kws:
                 if isinstance(args[0], ast.GeneratorExp):
                     ge = self.comp(args[0], "comp")
-                    return self.ev(recv, lambda r: f"(bind {ge} (fun x => {one[m]} {r} x))")
+                    return self.ev(recv, lambda r: self.mkbind(ge, lambda x: f"({one[m]} {r} {x})"))
                 return self.evs([recv, args[0]], lambda vs: f"({one[m]} {vs[0]} {vs[1]})")
             zero = {"values": "dict_values", "keys": "dict_keys", "items": "dict_items", "collect": "df_collect",
                     "typeName": "type_name"}
@@ -646,6 +662,24 @@ class Fn:
             return (f"(bind (as_iter {itv}) (fun l => bind ({fn} {lam} l {pat}) (fun r => match r with "
                     f"| inl {('st' if not state else pat) if state else '_'} => {after} | inr v => {ret('v')} end)))")
         return self.ev(s.iter, k)
+
+
+def ok_inner(term: str):
+    """X if term is literally (Ok X) with X an atom or a parenthesised term, else None"""
+    if not (term.startswith("(Ok ") and term.endswith(")")):
+        return None
+    inner = term[4:-1]
+    depth = 0
+    for i, ch in enumerate(inner):
+        if ch == "(":
+            depth += 1
+        elif ch == ")":
+            depth -= 1
+            if depth < 0:
+                return None
+        elif ch == " " and depth == 0:
+            return None
+    return inner if depth == 0 else None
 
 
 def truth(term: str) -> str:
